@@ -39,6 +39,8 @@ type c04Scenario struct {
 	Restarts []int      `json:"restarts_after_arrival,omitempty"`
 	Conc     int        `json:"concurrent_senders"`
 	GapHours int        `json:"hours_since_earlier_instance,omitempty"`
+	GapMin   int        `json:"minutes_since_earlier_instance,omitempty"`
+	StalledH int        `json:"stalled_partial_of_another_file_hours_before,omitempty"`
 	Note     string     `json:"note,omitempty"`
 }
 
@@ -83,6 +85,7 @@ func c04Run(c *Ctx, idx int, rng *rand.Rand, sc *c04Scenario, dir string) {
 	viol := func(clause, fp, detail string) {
 		res.Violate(Violation{Clause: clause, Fingerprint: "C04/" + fp, Detail: detail, Scenario: sc, Index: idx})
 	}
+	time.Sleep(time.Duration(rng.Intn(86400)) * time.Second) // any time of day
 	rs := newRecvSide(dir, false)
 	defer rs.close()
 	rs.restamp()
@@ -219,10 +222,32 @@ func c04Run(c *Ctx, idx int, rng *rand.Rand, sc *c04Scenario, dir string) {
 	}
 
 	// ---- phase 0: an earlier instance delivers the "logged-earlier" predecessors
+	stalledVariant := len(earlier) > 0 && rng.Intn(2) == 0
+	if stalledVariant {
+		// a transfer of another file stalled some hours before (its companion stays in the
+		// staging area); the new instance's memory then reaches back past it, and the
+		// predecessor was delivered only minutes to hours before the restart - the same
+		// calendar day, or the one before, at any time of day
+		sd := randBytes(rng, 300)
+		d := &desc{Name: "z/stalled.dat", Hash: md5hex(sd), Size: 300, Time: time.Now().Add(-time.Hour), Beg: 0, End: 100, Send: 300}
+		rs.Stage.Prepare([]sts.Binned{d})
+		_ = rs.Stage.Receive(d.partial("src"), &chunkyReader{data: sd[:100], rng: rng, stop: -1})
+		rs.restamp()
+		sc.StalledH = 1 + rng.Intn(40)
+		time.Sleep(time.Duration(sc.StalledH)*time.Hour + time.Duration(rng.Intn(3600))*time.Second)
+	}
 	for _, e := range earlier {
 		_ = send(rs, e, e.data, e.hash)
 	}
-	if len(earlier) > 0 {
+	if stalledVariant {
+		synctest.Wait()
+		sc.GapMin = 1 + rng.Intn(600)
+		time.Sleep(time.Duration(sc.GapMin) * time.Minute)
+		ftime = time.Now().Add(-time.Duration(1+rng.Intn(50)) * time.Second)
+		rs.restamp()
+		rs.reboot(false)
+		rs.Stage.Recover()
+	} else if len(earlier) > 0 {
 		// possibly beyond the 24 h cache window; up to 17 days, so that the predecessor's
 		// record is found only after many of the 10 s look-back retries (24 h further each)
 		gap := 1 + rng.Intn(72)
